@@ -35,6 +35,8 @@ def possibleUnsafeMarkers : List (List UInt8) := [[45, 45, 45, 45, 45, 66, 69, 7
 def sshPublicPrefixes : List (List UInt8) := [[115, 115, 104, 45, 114, 115, 97], [101, 99, 100, 115, 97, 45, 115, 104, 97, 50, 45], [115, 115, 104, 45, 101, 100, 50, 53, 53, 49, 57]]
 def privateKeyOps : List String := ["sign", "decrypt", "unwrapKey"]
 def publicKeyOps : List String := ["verify", "encrypt", "wrapKey"]
+/-- `Key.ALLOWED_PARAMS`: the options a key object copies into its members -/
+def allowedParams : List String := ["use", "key_ops", "alg", "kid", "x5u", "x5c", "x5t", "x5t#S256"]
 
 def registeredHeaderParameterNames : List String := ["alg", "crit", "cty", "jku", "jwk", "kid", "typ", "x5c", "x5t", "x5t#S256", "x5u"]
 
